@@ -39,6 +39,7 @@ func (m *sysModel) Render() *dump.Tree {
 	for id, th := range m.things {
 		b := t.Ensure("root", "things", id)
 		b.Values["name"] = world.EncString(th.name)
+		b.Values["title"] = world.EncString("T-" + th.name)
 		b.Values["createdAt"] = []byte{6, 'T'}
 		b.Values["updatedAt"] = []byte{6, 'T'}
 		if th.sys {
@@ -62,13 +63,14 @@ type sysScenario struct {
 func newSysScenario() *sysScenario {
 	sc := &sysScenario{ids: []string{"s1", "s2"}}
 	sc.store = world.NewStore(&world.Spec{EntityType: "things", BasePath: []string{"root"}, Ext: true,
-		Fields: []world.Field{{Name: "name", Kind: world.KString}}})
+		// `title` is written with SetRequiredString, `name` with SetString: both after the constraint has had its say
+		Fields: []world.Field{{Name: "name", Kind: world.KString}, {Name: "title", Kind: world.KReqString}}})
 	sc.store.AddExtEntitySymbols()
 	nameSym := sc.store.AddSymbol("name", 4)
 	sc.store.AddUniqueIndex(nameSym)
 	sc.store.AddConstraint(boltz.NewSystemEntityEnforcementConstraint(sc.store))
 	sc.vip = world.NewStore(&world.Spec{Parent: sc.store, ChildPath: []string{"vip"}, Ext: true, Fields: []world.Field{
-		{Name: "name", Kind: world.KString}, {Name: "rank", Kind: world.KInt64P, Child: true}}})
+		{Name: "name", Kind: world.KString}, {Name: "title", Kind: world.KReqString}, {Name: "rank", Kind: world.KInt64P, Child: true}}})
 	sc.store.GrantSymbols(sc.vip)
 	sc.buildOps()
 	return sc
@@ -110,7 +112,7 @@ func (sc *sysScenario) Normalize(t *dump.Tree) *dump.Tree {
 }
 
 func (sc *sysScenario) rec(id, name string, sys bool) *world.Rec {
-	r := world.NewRec("things", id).With("name", name).With("rank", int64(7))
+	r := world.NewRec("things", id).With("name", name).With("title", "T-"+name).With("rank", int64(7))
 	r.IsSystem = sys
 	return r
 }
@@ -187,8 +189,8 @@ func (sc *sysScenario) buildOps() {
 							var checker boltz.FieldChecker
 							label := "update"
 							if patch {
-								checker = boltz.MapFieldChecker{"name": struct{}{}, "isSystem": struct{}{}, "createdAt": struct{}{}}
-								label = "patch[name,isSystem,createdAt]"
+								checker = boltz.MapFieldChecker{"name": struct{}{}, "title": struct{}{}, "isSystem": struct{}{}, "createdAt": struct{}{}}
+								label = "patch[name,title,isSystem,createdAt]"
 							}
 							if migrate {
 								// an entity marked as migrated (it brings its own timestamps) is still only updated
